@@ -286,7 +286,8 @@ def build_list(game: str, name: str, rows_: List[dict]):
 
 def build(obj: dict):
     if "maps" in obj:
-        ms = mapset_class(obj["game"])([build(c) for c in obj["maps"]])
+        ms = mapset_class(obj["game"])()
+        ms.maps = [build(c) for c in obj["maps"]]
         for k, v in obj.get("meta", {}).items():
             setattr(ms, k, v)
         return ms
